@@ -346,6 +346,9 @@ def f_exists_idx(p):
             if k == 1 and y == z:
                 z = y + 1  # key 1 has no witness of y = z: a run that reports one mixed two threads' tuples
             rows.add((k, y, z))
+        # exactly one witness of y = z + 37 (used by a non-indexed existence test below)
+        rows = set(t for t in rows if t[1] != t[2] + 37)
+        rows.add((r.randrange(3), 39, 2))
         p.facts["e3"] = [("%d" % a, "%d" % b, "%d" % c) for a, b, c in sorted(rows)]
     a = p.fresh("hit")
     p.decl(a, [("k", "number")])
@@ -359,6 +362,10 @@ def f_exists_idx(p):
     p.rule("%s(%d) :- e3(k,y,%d), k > y + 30." % (a, 100 + zc[0], zc[0]))
     p.rule("%s(%d) :- e3(k,y,%d), k <= y + 1." % (a, 200 + zc[1], zc[1]))
     p.rule("%s(%d) :- e3(k,%d,z), z < k." % (a, 300 + zc[2], zc[2]))
+    # non-indexed existence tests over the whole relation: a single witness somewhere in the middle of a chunk / no witness
+    p.rule("%s(400) :- e3(_,y,z), y = z + 37." % a)
+    p.rule("%s(401) :- e3(k,y,z), y = z + 38, k >= 0." % a)
+    p.rule("%s(402) :- e3(k,y,z), k + y + z > 77, y > z." % a)
     b = p.fresh("hitn")
     p.decl(b, [("x", "number")], p.repr_for(1))
     p.rule("%s(x) :- n1(x), e3(2,y,z), y = z + 1." % b)
